@@ -1,12 +1,417 @@
-//! C07: not yet implemented
+//! C07: parse → (edits) → `write_to_buffer` → parse.  Abstract canonical models and edit
+//! histories are generated here; the Lean driver encodes the model (`Spec/Mdl.encodeMdl`) and
+//! decodes the new vertex data into `Vertex` values (grammar: `lean/PhysisModel/Driver/C07.lean`).
 #![allow(unused)]
+use crate::c06::*;
 use crate::util::*;
+use physis::model::{MDL, NewShapeValue, SubMesh, Vertex};
+use std::fmt::Write as _;
 use std::io::Write;
 
-pub fn generate(thorough: bool, seed: u64, out: &mut dyn Write) {}
+fn dot_streams(st: &[(u8, Vec<u8>)]) -> String {
+    if st.is_empty() {
+        return "-".into();
+    }
+    st.iter().map(|(s, d)| format!("{}.{}", s, hex(d))).collect::<Vec<_>>().join("/")
+}
+
+fn u16be(l: &[u16]) -> String {
+    if l.is_empty() {
+        return "-".into();
+    }
+    let mut s = String::new();
+    for v in l {
+        let _ = write!(s, "{:04x}", v);
+    }
+    s
+}
+
+/// one random history on `m` (mutated along to stay consistent); returns the edit tokens
+fn gen_history(rng: &mut Rng, m: &mut GModel, huge: bool) -> Vec<String> {
+    let mut huge = huge;
+    let mut toks = Vec::new();
+    let has_shape_tables = !m.shm.is_empty() || !m.shv.is_empty();
+    let mut shapes_removed = false;
+    if has_shape_tables && rng.chance(9, 10) || rng.chance(1, 5) {
+        toks.push("rs=1".to_string());
+        m.shm.clear();
+        m.shv.clear();
+        for s in &mut m.shapes {
+            s.start = [0; 3];
+            s.count = [0; 3];
+        }
+        shapes_removed = true;
+    }
+    let rounds = match rng.below(6) {
+        0 => 0,
+        1 | 2 | 3 => 1,
+        4 => 2,
+        _ => 3,
+    };
+    for _ in 0..rounds {
+        let lodn = m.lodn as usize;
+        let l = rng.below(lodn as u64) as usize;
+        let nm = m.lods[l].meshes.len();
+        if nm == 0 {
+            continue;
+        }
+        // new index counts for every mesh of the LOD first (starts must be consistent)
+        let mut order: Vec<usize> = (0..nm).collect();
+        for i in (1..nm).rev() {
+            let j = rng.below((i + 1) as u64) as usize;
+            order.swap(i, j);
+        }
+        let mut new_vc = Vec::new();
+        let mut new_ni = Vec::new();
+        for d in 0..nm {
+            let vc = match rng.below(12) {
+                0 => 0,
+                1 => 1,
+                2..=8 => rng.range(2, 60),
+                9 | 10 => rng.range(60, 400),
+                _ => {
+                    if huge {
+                        // the u16 vertex-count boundary: once per selected history
+                        huge = false;
+                        *rng.pick(&[65535u64, 65534, 40000])
+                    } else {
+                        rng.range(400, 1500)
+                    }
+                }
+            } as usize;
+            let ni = match rng.below(5) {
+                0 => 0,
+                1 => 8 * rng.below(6) as usize,
+                _ => rng.below((3 * vc.min(700) + 1) as u64) as usize,
+            };
+            // a third of the replacements keep the mesh's vertex and index counts (same-size
+            // geometry whose position in the LOD's buffers still moves when a neighbour resizes)
+            let (vc, ni) = if rng.chance(1, 3) {
+                (m.lods[l].meshes[d].vcount as usize, m.lods[l].meshes[d].indices.len())
+            } else {
+                (vc, ni)
+            };
+            new_vc.push(vc);
+            new_ni.push(ni);
+        }
+        for &d in &order {
+            let start: usize = new_ni[..d].iter().sum();
+            let mesh = &mut m.lods[l].meshes[d];
+            let strides: Vec<u8> = mesh.streams.iter().map(|x| x.0).collect();
+            let vc = new_vc[d];
+            let streams = canonical_streams(rng, &mesh.decl, &strides, vc);
+            let ni = new_ni[d];
+            let indices: Vec<u16> = (0..ni).map(|_| if vc == 0 { 0 } else { rng.below(vc as u64) as u16 }).collect();
+            // contiguous split over the existing sub-meshes
+            let nsub = mesh.subs.len();
+            let mut cuts: Vec<usize> = (0..nsub.saturating_sub(1)).map(|_| rng.below((ni + 1) as u64) as usize).collect();
+            cuts.sort();
+            let mut pairs = Vec::new();
+            let mut prev = 0usize;
+            for i in 0..nsub {
+                let end = if i + 1 == nsub { ni } else { cuts[i] };
+                pairs.push(((start + prev) as u32, (end - prev) as u32));
+                prev = end;
+            }
+            // occasionally supply fewer sub-meshes than the part has (only a prefix is updated)
+            let supplied = if nsub > 1 && rng.chance(1, 10) { &pairs[..1] } else { &pairs[..] };
+            toks.push(format!(
+                "rv={}:{}:{}:{}:{}:{}",
+                l,
+                d,
+                vc,
+                dot_streams(&streams),
+                u16be(&indices),
+                if supplied.is_empty() { "-".to_string() } else { supplied.iter().map(|(o, c)| format!("{}.{}", o, c)).collect::<Vec<_>>().join("/") }
+            ));
+            mesh.vcount = vc as u16;
+            mesh.streams = streams;
+            mesh.indices = indices;
+            mesh.index_pad = 0;
+            for (i, (o, c)) in supplied.iter().enumerate() {
+                mesh.subs[i].off = *o;
+                mesh.subs[i].count = *c;
+            }
+        }
+        // other LODs keep their layout
+    }
+    // add shape meshes (only meaningful after the tables were cleared or were empty)
+    if !m.shapes.is_empty() && (shapes_removed || !has_shape_tables) && rng.chance(1, 2) {
+        let n = rng.range(1, 3);
+        let mut smi_of: std::collections::HashMap<(usize, usize), usize> = std::collections::HashMap::new();
+        for _ in 0..n {
+            let l = rng.below(m.lodn as u64) as usize;
+            if m.lods[l].meshes.is_empty() {
+                continue;
+            }
+            let shape = rng.below(m.shapes.len() as u64) as usize;
+            let part = rng.below(m.lods[l].meshes.len() as u64) as usize;
+            let mesh = &mut m.lods[l].meshes[part];
+            let nv = if mesh.indices.is_empty() { 0 } else { rng.below(4) as usize };
+            if mesh.vcount as usize + nv > 65535 {
+                continue;
+            }
+            let smi = *smi_of.get(&(shape, l)).unwrap_or(&0);
+            smi_of.insert((shape, l), smi + 1);
+            let bases: Vec<u32> = (0..nv).map(|_| rng.below(mesh.indices.len() as u64) as u32).collect();
+            let strides: Vec<u8> = mesh.streams.iter().map(|x| x.0).collect();
+            let streams = canonical_streams(rng, &mesh.decl, &strides, nv);
+            toks.push(format!(
+                "as={}:{}:{}:{}:{}:{}",
+                l,
+                shape,
+                smi,
+                part,
+                if bases.is_empty() { "-".to_string() } else { bases.iter().map(|b| b.to_string()).collect::<Vec<_>>().join("/") },
+                dot_streams(&streams)
+            ));
+            mesh.vcount += nv as u16;
+            for (i, (_, d)) in streams.iter().enumerate() {
+                mesh.streams[i].1.extend_from_slice(d);
+            }
+        }
+    }
+    toks
+}
+
+pub fn generate(thorough: bool, seed: u64, out: &mut dyn Write) {
+    let mut rng = Rng::new(seed, "C07");
+    if let Ok(b) = std::fs::read(sample_path()) {
+        writeln!(out, "rawwrite {}", hex(&b)).unwrap();
+    }
+    if thorough {
+        // the u16 vertex-count boundary (the specification's decoder is quadratic in the vertex
+        // count, so the boundary gets two dedicated small-stride cases instead of random ones)
+        for &vc in &[65535usize, 65534] {
+            let decl = vec![GElem { stream: 0, offset: 0, ty: 2, usage: 0, uidx: 0 }];
+            let mut m = single_stream_model(decl.clone(), 12, 3, canonical_streams(&mut rng, &decl, &[12], 3)[0].1.clone());
+            m.lods[0].meshes[0].indices = vec![0, 1, 2];
+            m.lods[0].meshes[0].index_pad = 5;
+            m.lods[0].meshes[0].subs = vec![GSub { off: 0, count: 3, mask: 0, bstart: 0, bcount: 0 }];
+            let streams = canonical_streams(&mut rng, &decl, &[12], vc);
+            let ni = 3 * 700;
+            let indices: Vec<u16> = (0..ni).map(|_| rng.below(vc as u64) as u16).collect();
+            writeln!(out, "edit {} | rv=0:0:{}:{}:{}:0.{}", m.tokens(), vc, dot_streams(&streams), u16be(&indices), ni).unwrap();
+        }
+    }
+    let n = if thorough { 30000 } else { 400 };
+    for i in 0..n {
+        let o = GenOpts {
+            max_meshes: if i % 5 == 0 { 4 } else { 2 },
+            max_vertices: if i % 9 == 0 { 300 } else { 60 },
+            combos: if i % 12 == 8 { D9COMBOS } else { WCOMBOS },
+            v5_only: true,
+            canonical: true,
+        };
+        let mut m = gen_model(&mut rng, &o);
+        let base = m.tokens();
+        if i % 4 == 0 {
+            writeln!(out, "write {}", base).unwrap();
+            if i % 16 == 0 {
+                writeln!(out, "wbytes {} |", base).unwrap();
+            }
+        } else {
+            let toks = gen_history(&mut rng, &mut m, thorough && i % 100 == 7);
+            writeln!(out, "edit {} | {}", base, toks.join(" ")).unwrap();
+            if i % 10 == 1 {
+                writeln!(out, "wbytes {} | {}", base, toks.join(" ")).unwrap();
+            }
+        }
+    }
+}
+
+// ---------------------------------------------------------------------------------------------
+fn parse_vertex(h: &[u8]) -> Option<Vertex> {
+    if h.len() != 92 {
+        return None;
+    }
+    let f = |i: usize| f32::from_bits(u32::from_be_bytes([h[4 * i], h[4 * i + 1], h[4 * i + 2], h[4 * i + 3]]));
+    Some(Vertex {
+        position: [f(0), f(1), f(2)],
+        uv0: [f(3), f(4)],
+        uv1: [f(5), f(6)],
+        normal: [f(7), f(8), f(9)],
+        bitangent: [f(10), f(11), f(12), f(13)],
+        color: [f(14), f(15), f(16), f(17)],
+        bone_weight: [f(18), f(19), f(20), f(21)],
+        bone_id: [h[88], h[89], h[90], h[91]],
+    })
+}
+
+fn parse_vertices(s: &str) -> Option<Vec<Vertex>> {
+    let b = unhex(s)?;
+    if b.len() % 92 != 0 {
+        return None;
+    }
+    b.chunks(92).map(parse_vertex).collect()
+}
+
+fn parse_u16be(s: &str) -> Option<Vec<u16>> {
+    let b = unhex(s)?;
+    if b.len() % 2 != 0 {
+        return None;
+    }
+    Some(b.chunks(2).map(|c| u16::from_be_bytes([c[0], c[1]])).collect())
+}
+
+enum Op {
+    Rv(usize, usize, Vec<Vertex>, Vec<u16>, Vec<(u32, u32)>),
+    Rs,
+    As(usize, usize, usize, usize, Vec<(u32, Vertex)>),
+}
+
+fn parse_op(tok: &str) -> Option<Op> {
+    let (k, v) = tok.split_once('=')?;
+    let f: Vec<&str> = v.split(':').collect();
+    match k {
+        "rv" if f.len() == 5 => {
+            let subs = if f[4] == "-" {
+                vec![]
+            } else {
+                f[4].split('/')
+                    .map(|p| {
+                        let (a, b) = p.split_once('.')?;
+                        Some((a.parse().ok()?, b.parse().ok()?))
+                    })
+                    .collect::<Option<Vec<_>>>()?
+            };
+            Some(Op::Rv(f[0].parse().ok()?, f[1].parse().ok()?, parse_vertices(f[2])?, parse_u16be(f[3])?, subs))
+        }
+        "rs" => Some(Op::Rs),
+        "as" if f.len() == 5 => {
+            let vals = if f[4] == "-" {
+                vec![]
+            } else {
+                f[4].split('/')
+                    .map(|p| {
+                        let (a, b) = p.split_once('.')?;
+                        let vb = unhex(b)?;
+                        Some((a.parse().ok()?, parse_vertex(&vb)?))
+                    })
+                    .collect::<Option<Vec<_>>>()?
+            };
+            Some(Op::As(f[0].parse().ok()?, f[1].parse().ok()?, f[2].parse().ok()?, f[3].parse().ok()?, vals))
+        }
+        _ => None,
+    }
+}
+
+fn rd32(b: &[u8], o: usize) -> u64 {
+    u32::from_le_bytes([b[o], b[o + 1], b[o + 2], b[o + 3]]) as u64
+}
+
+/// header self-consistency flags of a written buffer (same definition as `Spec/MdlEdit.headerFlags`)
+fn flags_text(edited: bool, file: &[u8], buf: &[u8], mdeq: bool, m1: &MDL) -> String {
+    let b = |x: bool| if x { "1" } else { "0" };
+    if buf.len() < 68 {
+        return "short".into();
+    }
+    let stack = rd32(buf, 4);
+    let runtime = rd32(buf, 8);
+    let vo: Vec<u64> = (0..3).map(|i| rd32(buf, 16 + 4 * i)).collect();
+    let io: Vec<u64> = (0..3).map(|i| rd32(buf, 28 + 4 * i)).collect();
+    let vbs: Vec<u64> = (0..3).map(|i| rd32(buf, 40 + 4 * i)).collect();
+    let ibs: Vec<u64> = (0..3).map(|i| rd32(buf, 52 + 4 * i)).collect();
+    let len = buf.len() as u64;
+    let vsum = |i: usize| -> u64 {
+        m1.lods.get(i).map_or(0, |l| {
+            l.parts.iter().map(|p| p.vertex_stream_strides.iter().map(|st| (p.vertices.len() * st) as u64).sum::<u64>()).sum()
+        })
+    };
+    let isum = |i: usize| -> u64 { 2 * m1.lods.get(i).map_or(0, |l| l.parts.iter().map(|p| p.indices.len() as u64).sum::<u64>()) };
+    let sized = (0..3).all(|i| vbs[i] == vsum(i));
+    let padded = (0..3).all(|i| ibs[i] % 16 == 0 && isum(i) <= ibs[i]);
+    let secs: Vec<(u64, u64)> = (0..3).map(|i| (vo[i], vbs[i])).chain((0..3).map(|i| (io[i], ibs[i]))).collect();
+    let ne: Vec<(u64, u64)> = secs.iter().cloned().filter(|s| s.1 != 0).collect();
+    let mut disjoint = ne.iter().all(|s| 68 + stack + runtime <= s.0);
+    for a in 0..ne.len() {
+        for b in (a + 1)..ne.len() {
+            if !(ne[a].0 + ne[a].1 <= ne[b].0 || ne[b].0 + ne[b].1 <= ne[a].0) {
+                disjoint = false;
+            }
+        }
+    }
+    let inb = secs.iter().all(|s| s.0 + s.1 <= len);
+    if edited {
+        format!("fheq=- mdeq={} sz={} pad={} dis={} inb={}", b(mdeq), b(sized), b(padded), b(disjoint), b(inb))
+    } else {
+        let fheq = file.len() >= 68 && buf[..68] == file[..68];
+        format!("fheq={} mdeq={} sz=- pad=- dis=- inb={}", b(fheq), b(mdeq), b(inb))
+    }
+}
+
+fn run_inner(kind: &str, file: Vec<u8>, ops: Vec<Op>) -> String {
+    let Some(mut m) = MDL::from_existing(&file) else { return "none".into() };
+    let edited = !ops.is_empty();
+    let r = std::panic::catch_unwind(std::panic::AssertUnwindSafe(|| {
+        for op in &ops {
+            match op {
+                Op::Rv(l, p, verts, indices, subs) => {
+                    // SubMesh has a private field: clone the part's own entries and change the public ones
+                    let existing: Vec<SubMesh> = m.lods[*l].parts[*p].submeshes.clone();
+                    let mut supplied = Vec::new();
+                    for (i, (o, c)) in subs.iter().enumerate() {
+                        let mut s = existing[i];
+                        s.index_offset = *o;
+                        s.index_count = *c;
+                        supplied.push(s);
+                    }
+                    m.replace_vertices(*l, *p, verts, indices, &supplied);
+                }
+                Op::Rs => m.remove_shape_meshes(),
+                Op::As(l, sh, smi, p, vals) => {
+                    let nv: Vec<NewShapeValue> = vals.iter().map(|(b, v)| NewShapeValue { base_index: *b, replacing_vertex: *v }).collect();
+                    m.add_shape_mesh(*l, *sh, *smi, *p, &nv);
+                }
+            }
+        }
+    }));
+    if r.is_err() {
+        return "panic@edit".into();
+    }
+    let w = std::panic::catch_unwind(std::panic::AssertUnwindSafe(|| m.write_to_buffer()));
+    let buf = match w {
+        Err(_) => return "panic@write".into(),
+        Ok(None) => return "none@write".into(),
+        Ok(Some(b)) => b,
+    };
+    if kind == "wbytes" {
+        return hex(&buf);
+    }
+    let r = std::panic::catch_unwind(std::panic::AssertUnwindSafe(|| MDL::from_existing(&buf)));
+    let m1 = match r {
+        Err(_) => return "panic@reparse".into(),
+        Ok(None) => return "none@reparse".into(),
+        Ok(Some(x)) => x,
+    };
+    let mdeq = m1.model_data == m.model_data;
+    let fl = flags_text(edited, &file, &buf, mdeq, &m1);
+    if kind == "rawwrite" {
+        format!("ok {}", fl)
+    } else {
+        format!("ok {} {}", fl, mdl_text(&m1))
+    }
+}
 
 pub fn run(case: &str, input: &str) -> String {
-    "unimplemented".to_string()
+    let f: Vec<&str> = input.split(' ').collect();
+    if f.len() < 2 {
+        return "bad-case".into();
+    }
+    let kind = f[0];
+    if kind != "edit" && kind != "wbytes" && kind != "rawwrite" {
+        return "bad-case".into();
+    }
+    let Some(file) = unhex(f[1]) else { return "bad-case".into() };
+    let mut ops = Vec::new();
+    for t in &f[2..] {
+        match parse_op(t) {
+            Some(o) => ops.push(o),
+            None => return "bad-case".into(),
+        }
+    }
+    let kind = kind.to_string();
+    strip_panic(guarded(move || run_inner(&kind, file, ops)))
 }
 
 pub fn dump(out: &mut dyn Write) {}
